@@ -82,6 +82,18 @@ def mutants_of_expr(e):
         m = copy.deepcopy(e)
         m.args = [ast.BinOp(left=m.args[0], op=ast.Add(), right=ast.Constant(value=1))]
         yield f"{e.func.id}(x)->(x+1)", m
+    if isinstance(e, ast.Call) and isinstance(e.func, ast.Name) and e.func.id == "range" and 1 <= len(e.args) <= 2 and not e.keywords:
+        m = copy.deepcopy(e)
+        m.args[-1] = ast.BinOp(left=m.args[-1], op=ast.Sub(), right=ast.Constant(value=1))
+        yield "range upper bound - 1", m
+        m = copy.deepcopy(e)
+        if len(m.args) == 1:
+            m.args = [ast.Constant(value=1), m.args[0]]
+        else:
+            m.args[0] = ast.BinOp(left=m.args[0], op=ast.Add(), right=ast.Constant(value=1))
+        yield "range lower bound + 1", m
+    if isinstance(e, ast.Call) and isinstance(e.func, ast.Name) and e.func.id in ("reversed", "sorted") and len(e.args) == 1 and not e.keywords:
+        yield f"{e.func.id}() dropped", copy.deepcopy(e.args[0])
     SIB = {"r_stb": "w_stb", "w_stb": "r_stb", "r_data": "w_data", "w_data": "r_data", "start": "stop", "stop": "start", "set": "clr", "clr": "set",
            "readable": "writable", "writable": "readable", "addr_width": "data_width", "data_width": "addr_width", "err": "rty", "rty": "err",
            "cyc": "stb", "stb": "cyc", "dat_r": "dat_w", "dat_w": "dat_r", "enable": "pending", "pending": "enable", "r_en": "w_en", "w_en": "r_en",
@@ -168,6 +180,31 @@ def generate(files):
                     continue
                 out.append({"file": rel, "line": n.lineno, "func": owner[id(n)], "op": desc,
                             "orig": ast.get_source_segment(src, n)[:60] if ast.get_source_segment(src, n) else "", "new": text[:60], "src": new_src})
+        # two adjacent statements of one block exchanged (assignment order decides priority in the DSL)
+        for f in ast.walk(tree):
+            if not isinstance(f, (ast.FunctionDef, ast.AsyncFunctionDef)):
+                continue
+            for blk_owner in ast.walk(f):
+                for field in ("body", "orelse"):
+                    blk = getattr(blk_owner, field, None)
+                    if not isinstance(blk, list) or len(blk) < 2 or not isinstance(blk[0], ast.stmt):
+                        continue
+                    for a_, b_ in zip(blk, blk[1:]):
+                        if not (isinstance(a_, (ast.With, ast.AugAssign, ast.If, ast.For)) and isinstance(b_, (ast.With, ast.AugAssign, ast.If, ast.For))):
+                            continue
+                        if isinstance(a_, ast.Expr) or isinstance(b_, ast.Expr):
+                            continue
+                        sa_ = lines[a_.lineno - 1:a_.end_lineno]
+                        sb_ = lines[b_.lineno - 1:b_.end_lineno]
+                        gap = lines[a_.end_lineno:b_.lineno - 1]
+                        new_lines = lines[:a_.lineno - 1] + sb_ + gap + sa_ + lines[b_.end_lineno:]
+                        new_src = "\n".join(new_lines)
+                        try:
+                            ast.parse(new_src)
+                        except Exception:
+                            continue
+                        out.append({"file": rel, "line": a_.lineno, "func": f.name, "op": "adjacent statements swapped",
+                                    "orig": lines[a_.lineno - 1].strip()[:60], "new": lines[b_.lineno - 1].strip()[:60], "src": new_src})
         # Python `if` tests negated / made unconditional
         for f in ast.walk(tree):
             if not isinstance(f, (ast.FunctionDef, ast.AsyncFunctionDef)):
